@@ -136,13 +136,13 @@ PROPS["C13"] = {
              "(differential): the dispatcher events must equal, item for item, what input.NewPlain produces for the equivalent text lines (int "
              "and str fields verbatim, float values with six decimals, float timestamps within <1s), each invalid item exactly one IncNumInvalid. "
              "malformed_frame: wrong length / truncation / bad prefix / garbage after 0-3 good frames: no panic, earlier frames fully processed, "
-             "nothing invented. Non-trivial: >=2 items mixing >=2 scalar encodings, in >=2 frames or cut inside. Distinct = hash(interpreter, frames, bytes)."),
+             "nothing invented. Non-trivial: >=2 items mixing >=2 scalar encodings, in >=2 frames or cut inside. Distinct = hash(interpreter, frames, bytes). concurrent_connections: 2-6 connections at the same time on ONE handler object (as the listener uses it), each a CPython-made sequence of well-formed frames (protocols 0-4, 1-60 items, repeated 1-100 times, chunked reads) with names carrying the connection number: every connection's datapoints must come out complete, in order, none counted invalid, none invented."),
     "level_text": "Differential property testing against the plain-text path on frames produced by real CPython picklers (several versions), thousands of generated lists; holds on all generated.",
     "level_note": "Python 3 bytes names, bools and NaN/Inf floats are outside the generated domain; whether a malformed frame yields an error value or nil is recorded, not asserted (the connection ends either way).",
     "technique": "property-based testing (rapid): differential oracle (pickle path vs plain path) on CPython-generated pickles; segmentation metamorphic",
     "assumptions": ["CPython's pickle module defines the wire format", "python interpreters present on the image"],
-    "quick": [R("TestPropPickleVsPlain", 3000), R("TestPropMalformedFrame", 1500)],
-    "thorough": [R("TestPropPickleVsPlain", 40000, shards=12, timeout=2400), R("TestPropMalformedFrame", 20000, shards=4, timeout=2400)],
+    "quick": [R("TestPropPickleVsPlain", 3000), R("TestPropMalformedFrame", 1500), R("TestPropConcurrentConnections", 60)],
+    "thorough": [R("TestPropConcurrentConnections", 1000, shards=2, timeout=2400), R("TestPropPickleVsPlain", 40000, shards=12, timeout=2400), R("TestPropMalformedFrame", 20000, shards=4, timeout=2400)],
 }
 
 PROPS["C15"] = {
